@@ -1,0 +1,7 @@
+//go:build !verif
+
+package eval
+
+func verifCacheOff() bool { return false }
+func verifCacheHit()      {}
+func verifCacheSet()      {}
